@@ -88,11 +88,13 @@ type ckey struct {
 type sharedRec struct {
 	cell     string
 	kind     string
-	origPath []pstep
-	copyPath []pstep
+	a, b     int     // owners: the value that reached the cell first and the one that reached it again (0 original, 1 copy, 2 second copy)
+	origPath []pstep // path in value a
+	copyPath []pstep // path in value b
 }
 
 type mutRec struct {
+	A  string `json:"a"`
 	Op string `json:"op"`
 	C  string `json:"c"`
 	L  string `json:"l"`
@@ -114,9 +116,10 @@ type walker struct {
 	ranges []arrRange
 	err    error
 
-	mut  string // mutation kind to perform at every site ("" = extract only)
-	seen map[string]bool
-	muts []mutRec
+	mut   string // mutation kind to perform at every site ("" = extract only)
+	actor string // the value the mutation is performed through: o, k, k2
+	seen  map[string]bool
+	muts  []mutRec
 }
 
 func newWalker() *walker {
@@ -148,8 +151,8 @@ func (w *walker) enter(id, kind string, capacity int, path []pstep) (cell *gcell
 		return &gcell{Slots: map[string]gval{}}, true
 	}
 	if c, ok := w.cells[id]; ok {
-		if c.owner == 0 && w.owner == 1 {
-			w.shared = append(w.shared, sharedRec{cell: id, kind: c.Kind, origPath: c.path, copyPath: append([]pstep{}, path...)})
+		if c.owner != w.owner {
+			w.shared = append(w.shared, sharedRec{cell: id, kind: c.Kind, a: c.owner, b: w.owner, origPath: c.path, copyPath: append([]pstep{}, path...)})
 		}
 		return c, false
 	}
@@ -206,11 +209,11 @@ func isScalarKind(k reflect.Kind) bool {
 }
 
 // mutated returns a scalar of the same type that differs from v
-func mutatedScalar(v reflect.Value) reflect.Value {
+func mutatedScalar(v reflect.Value, actor string) reflect.Value {
 	n := reflect.New(v.Type()).Elem()
 	switch v.Kind() {
 	case reflect.String:
-		n.SetString("MUT:" + v.String())
+		n.SetString("MUT-" + actor + ":" + v.String())
 	case reflect.Bool:
 		n.SetBool(!v.Bool())
 	case reflect.Int, reflect.Int8, reflect.Int16, reflect.Int32, reflect.Int64:
@@ -221,6 +224,29 @@ func mutatedScalar(v reflect.Value) reflect.Value {
 		n.SetFloat(v.Float() + 1)
 	}
 	return n
+}
+
+// markValue fills a freshly created element (appended, inserted) so that it is recognisably the actor's
+func markValue(v reflect.Value, actor string) {
+	if !v.CanSet() {
+		return
+	}
+	switch v.Kind() {
+	case reflect.String:
+		v.SetString("MUT-" + actor)
+	case reflect.Bool:
+		v.SetBool(true)
+	case reflect.Int, reflect.Int8, reflect.Int16, reflect.Int32, reflect.Int64:
+		v.SetInt(int64(70 + len(actor)))
+	case reflect.Interface:
+		if v.Type().NumMethod() == 0 {
+			v.Set(reflect.ValueOf("MUT-" + actor))
+		}
+	case reflect.Struct:
+		for i := 0; i < v.NumField(); i++ {
+			markValue(v.Field(i), actor)
+		}
+	}
 }
 
 func store(v reflect.Value, set func(reflect.Value), nv reflect.Value) bool {
@@ -251,11 +277,15 @@ func (w *walker) walk(v reflect.Value, set func(reflect.Value), hc, hl string, p
 			path[len(path)-1].any = true
 		}
 		slot := v
-		return w.walk(v.Elem(), func(nv reflect.Value) {
+		r := w.walk(v.Elem(), func(nv reflect.Value) {
 			b := reflect.New(slot.Type()).Elem()
 			b.Set(nv)
 			store(slot, set, b)
 		}, hc, hl, path, scalarOp)
+		if r.T == "nil" || (r.T == "slice" && r.N == 0) || (r.T == "map" && w.mut == "" && len(w.cells[r.C].Slots) == 0) {
+			r.V = "boxed" // a non-nil interface holding an empty value is not a nil interface (Heap.tla Empty)
+		}
+		return r
 	case reflect.Ptr:
 		if v.IsNil() {
 			return gNil
@@ -293,8 +323,8 @@ func (w *walker) walk(v reflect.Value, set func(reflect.Value), hc, hl string, p
 		if v.IsNil() {
 			return gNil
 		}
-		if v.Len() == 0 {
-			return gval{T: "slice"}
+		if v.Cap() == 0 {
+			return gval{T: "slice"} // no backing array at all: the same value as nil
 		}
 		et := v.Type().Elem()
 		id, fresh := w.idFor(ckey{'a', v.Pointer(), et})
@@ -320,16 +350,14 @@ func (w *walker) walk(v reflect.Value, set func(reflect.Value), hc, hl string, p
 					b.Set(v.Index(1))
 					v.Index(0).Set(b)
 					v.Index(1).Set(a)
-					w.muts = append(w.muts, mutRec{Op: "SetElem", C: id, L: "1"}, mutRec{Op: "SetElem", C: id, L: "2"})
+					w.muts = append(w.muts, mutRec{A: w.actor, Op: "SetElem", C: id, L: "1"}, mutRec{A: w.actor, Op: "SetElem", C: id, L: "2"})
 				}
 			}
 			if w.mut == "AppendWithinCap" && n < v.Cap() {
-				nv := reflect.Append(v, reflect.Zero(et)) // stays within capacity: writes the shared backing array
-				if et.Kind() == reflect.String {
-					nv.Index(n).SetString("MUT:appended")
-				}
+				nv := reflect.Append(v, reflect.Zero(et)) // stays within capacity: writes the (possibly shared) backing array
+				markValue(nv.Index(n), w.actor)
 				if store(v, set, nv) {
-					w.muts = append(w.muts, mutRec{Op: "AppendWithinCap", C: id, L: strconv.Itoa(n + 1), HC: hc, HL: hl})
+					w.muts = append(w.muts, mutRec{A: w.actor, Op: "AppendWithinCap", C: id, L: strconv.Itoa(n + 1), HC: hc, HL: hl})
 				}
 			}
 		}
@@ -354,26 +382,22 @@ func (w *walker) walk(v reflect.Value, set func(reflect.Value), hc, hl string, p
 				k.SetString("MUT-inserted")
 				if !v.MapIndex(k).IsValid() {
 					e := reflect.New(v.Type().Elem()).Elem()
-					if e.Kind() == reflect.Interface {
-						e.Set(reflect.ValueOf("MUT"))
-					} else if e.Kind() == reflect.String {
-						e.SetString("MUT")
-					}
+					markValue(e, w.actor)
 					v.SetMapIndex(k, e)
-					w.muts = append(w.muts, mutRec{Op: "MapInsert", C: id, L: "MUT-inserted"})
+					w.muts = append(w.muts, mutRec{A: w.actor, Op: "MapInsert", C: id, L: "MUT-inserted"})
 				}
 			}
 			if w.mut == "MapDelete" && len(keys) > 0 {
 				v.SetMapIndex(keys[0], reflect.Value{})
-				w.muts = append(w.muts, mutRec{Op: "MapDelete", C: id, L: keyString(keys[0])})
+				w.muts = append(w.muts, mutRec{A: w.actor, Op: "MapDelete", C: id, L: keyString(keys[0])})
 			}
 		}
 		return gval{T: "map", C: id}
 	default:
 		if isScalarKind(v.Kind()) {
 			if w.mut != "" && w.mut == scalarOp {
-				if store(v, set, mutatedScalar(v)) {
-					w.muts = append(w.muts, mutRec{Op: scalarOp, C: hc, L: hl})
+				if store(v, set, mutatedScalar(v, w.actor)) {
+					w.muts = append(w.muts, mutRec{A: w.actor, Op: scalarOp, C: hc, L: hl})
 				}
 			}
 			return gval{T: "s", V: scalarString(v)}
@@ -400,6 +424,8 @@ func (w *walker) structSlots(cell *gcell, v reflect.Value, id string, path []pst
 
 // root walks a root value; name is "o" (original) or "k" (copy)
 func (w *walker) root(v reflect.Value, name string) gval {
+	w.owner = map[string]int{"o": 0, "k": 1, "k2": 2}[name]
+	w.actor = name
 	return w.walk(v, nil, "", name, nil, "SetField")
 }
 
@@ -480,6 +506,12 @@ func (w *walker) iso(a, b gval, path []pstep, out *[]isoDiff) {
 	case w.empty(a):
 		if !w.empty(b) {
 			add("Differs")
+		} else if a.V != b.V { // an interface holding an empty value vs a nil interface
+			if a.V == "boxed" {
+				add("Lost")
+			} else {
+				add("Differs")
+			}
 		}
 	case a.T == "slice":
 		if b.T != "slice" || a.N != b.N {
